@@ -304,6 +304,7 @@ class SimplexEdge(Updim):
                     pass
                 else:
                     return SimplexEdge(self.todims, iedge, self.inverted), SimplexChild(self.fromdims, ichild)
+            return ScaledUpdim(other, self), Identity(self.fromdims) # edge of a child that is interior to the parent
 
 
 class SimplexChild(Square):
@@ -381,7 +382,7 @@ class TensorEdge1(Updim):
         # prioritize ascending transformations, i.e. change scale << updim to updim << scale
         if isinstance(other, TensorChild) and other.trans1.fromdims == self.trans.todims:
             swapped = self.trans.swapdown(other.trans1)
-            if swapped:
+            if swapped and not isinstance(swapped[0], ScaledUpdim):
                 edge, child = swapped
                 return TensorEdge1(edge, other.trans2.todims), TensorChild(child, other.trans2) if child.fromdims else other.trans2
             return ScaledUpdim(other, self), Identity(self.fromdims)
@@ -418,7 +419,7 @@ class TensorEdge2(Updim):
         # prioritize ascending transformations, i.e. change scale << updim to updim << scale
         if isinstance(other, TensorChild) and other.trans2.fromdims == self.trans.todims:
             swapped = self.trans.swapdown(other.trans2)
-            if swapped:
+            if swapped and not isinstance(swapped[0], ScaledUpdim):
                 edge, child = swapped
                 return TensorEdge2(other.trans1.todims, edge), TensorChild(other.trans1, child) if child.fromdims else other.trans1
             return ScaledUpdim(other, self), Identity(self.fromdims)
